@@ -174,11 +174,17 @@ class Router(frappy.protocol.dispatcher.Dispatcher):
             raise frappy.errors.NotImplementedError('module wise activation not implemented')
         return super().handle_deactivate(conn, specifier, data)
 
+    def get_node(self, module):
+        try:
+            return self.node_by_module[module]
+        except KeyError:
+            raise frappy.errors.NoSuchModuleError(f'Module {module!r} does not exist') from None
+
     def handle_read(self, conn, specifier, data):
         module = specifier.split(':')[0]
         if module in self.secnode.modules:
             return super().handle_read(conn, specifier, data)
-        node = self.node_by_module[module]
+        node = self.get_node(module)
         if node.online:
             return node.request(READREQUEST, specifier, data)
         return ERRORPREFIX + READREQUEST, specifier, SecopClient.disconnectedError + ({'t': node.disconnect_time},)
@@ -187,10 +193,10 @@ class Router(frappy.protocol.dispatcher.Dispatcher):
         module = specifier.split(':')[0]
         if module in self.secnode.modules:
             return super().handle_change(conn, specifier, data)
-        return self.node_by_module[module].request(WRITEREQUEST, specifier, data)
+        return self.get_node(module).request(WRITEREQUEST, specifier, data)
 
     def handle_do(self, conn, specifier, data):
         module = specifier.split(':')[0]
         if module in self.secnode.modules:
             return super().handle_do(conn, specifier, data)
-        return self.node_by_module[module].request(COMMANDREQUEST, specifier, data)
+        return self.get_node(module).request(COMMANDREQUEST, specifier, data)
